@@ -208,6 +208,10 @@ def expand_dom(d):
         names = list(d.fields)
         parts = [expand_dom(d.fields[n]) for n in names]
         return [S.Record(d.cls, dict(zip(names, c)), build=d.build) for c in itertools.product(*parts)]
+    if isinstance(d, (S.Namespace, S.DictOf)):
+        names = list(d.fields)
+        parts = [expand_dom(d.fields[n]) for n in names]
+        return [type(d)(**dict(zip(names, c))) for c in itertools.product(*parts)]
     return [d]
 
 
@@ -222,6 +226,9 @@ def dom_label(d):
         inner = ','.join(f'{k}={dom_label(v)}' for k, v in d.fields.items()
                          if isinstance(v, (S.Const, S.Record, S.NoneT)))
         return d.cls.split(':')[-1] + (f'[{inner}]' if inner else '')
+    if isinstance(d, (S.Namespace, S.DictOf)):
+        return ('ns' if isinstance(d, S.Namespace) else 'dict') + '{' + ','.join(
+            f'{k}={dom_label(v)}' for k, v in d.fields.items()) + '}'
     if isinstance(d, S.Seq):
         return f'Seq[{dom_label(d.elem)}]'
     if isinstance(d, S.Dyn):
@@ -316,9 +323,34 @@ def build_value(world, dom, name):
             fields[k] = v
             decs[k] = d
         obj = SObj(cls, fields)
+        if cls.ntfields is None:
+            obj.partial = True
         bname = dom.build.__module__ + ':' + dom.build.__name__ if dom.build else None
         return obj, Decoder(lambda m: {'$record': dom.cls, 'build': bname,
                                        'fields': {k: d(m) for k, d in decs.items()}})
+    if isinstance(dom, S.Namespace):
+        from . import records as REC
+        fields, decs = {}, {}
+        for k, fd in dom.fields.items():
+            v, d = build_value(world, fd, f'{name}.{k}')
+            fields[k] = v
+            decs[k] = d
+        return SObj(REC.namespace_class(world), fields), Decoder(lambda m: {'$namespace': {k: d(m) for k, d in decs.items()}})
+    if isinstance(dom, S.ObjSet):
+        from . import records as REC
+        t = REC.EMPTY if dom.empty else z3.Const(name, REC._SETSORT)
+        return REC.SSet(t), Decoder(lambda m: {'$objset': str(m.eval(t, model_completion=True))})
+    if isinstance(dom, S.ObjRef):
+        from . import records as REC
+        t = z3.Const(name, REC.Obj)
+        return REC.SObjRef(t), Decoder(lambda m: {'$obj': str(m.eval(t, model_completion=True))})
+    if isinstance(dom, S.DictOf):
+        vals, decs = {}, {}
+        for k, fd in dom.fields.items():
+            v, d = build_value(world, fd, f'{name}[{k}]')
+            vals[k] = v
+            decs[k] = d
+        return vals, Decoder(lambda m: {'$dict': {k: d(m) for k, d in decs.items()}})
     if isinstance(dom, S.Abstract):
         fn = AbstractFn(world, dom, name)
         return fn, Decoder(lambda m: {'$abstract': dom.name})
@@ -574,6 +606,12 @@ class Verifier:
         for _n in ('cached', 'old_cached', 'same_value', 'value_is', 'succ', 'same_node', 'in_done', 'forall_nodes',
                    'reads', 'computed', 'holds_f', 'old_holds_f', 'in_map', 'cell_at'):
             self.world.external['pyvc.heapspec.' + _n] = Builtin(_n, getattr(_HM, 'sx_' + _n))
+        from . import records as _REC
+        for _n, _f in _REC.SPEC_BUILTINS.items():
+            self.world.external['pyvc.recspec.' + _n] = Builtin(_n, _f)
+        self.ghost = {}
+        self.old_ghost = {}
+        self.old_map = {}
         self.ghost_calls = []
         self.modular_memo = {}
         self.old_heaps = []
@@ -796,7 +834,7 @@ class Verifier:
         # same path give the same result
         mkey = (key, tuple(arg_key(v) for v in vals))
         memo = self.world.explorer.modular_memo      # per path: the result's ensures live in that path's pc
-        if getattr(c, 'pure', True) and not getattr(c, 'heap', False) and mkey in memo:
+        if getattr(c, 'pure', True) and not getattr(c, 'heap', False) and getattr(c, 'effects', None) is None and mkey in memo:
             res = memo[mkey]
             self.ghost_calls.append((key, list(vals), res))
             return True, res
@@ -814,6 +852,8 @@ class Verifier:
             finally:
                 self.old_heaps.pop()
         else:
+            if getattr(c, 'effects', None) is not None:
+                c.effects(self, interp, vals)
             for e in c.ensures:
                 self.assume_spec(e, vals + [res])
         self.world.trusted.add(f'modular: {key} used by its contract')
@@ -840,7 +880,7 @@ class Verifier:
             ds = ast.unparse(d)
             head = ds.split('(')[0]
             if head in ('excel_helper', 'excel_math_func', 'excel_func', 'property', 'staticmethod',
-                        'classmethod', 'functools.wraps'):
+                        'classmethod', 'functools.wraps') or head.endswith('.setter'):
                 self.world.dropped.add(f'decorator @{head} of {c.name} (metadata / binding only; the '
                                        f'wrappers it selects have their own contracts)')
             elif head in ('functools.lru_cache', 'lru_cache', 'functools.cache', 'cache'):
@@ -860,6 +900,7 @@ class Verifier:
         if getattr(c, 'apply_decorators', False) and getattr(closure.node, 'decorator_list', None):
             closure = self.interp.apply_decorators(closure.node, closure, Env({}, None, closure.module))
         self.active = c
+        self.active_node = closure.node
         self.modular = {t: self.contracts[t] for t in c.modular if t in self.contracts}
         if c.decreases is not None:
             self.modular[c.target] = c
@@ -910,6 +951,11 @@ class Verifier:
                 self.assume_spec(r, args)
             old = self.snapshot(args)
             self.current_args = list(args)
+            if getattr(c, 'record', False):
+                from . import records as REC
+                REC.take_snapshot(self, args)
+                self.ghost = {g: mk_int(z3.IntVal(0)) for g in c.ghost}
+                self.old_ghost = dict(self.ghost)
             if getattr(c, 'heap', False):
                 from . import heapmodel as HM
                 self.old_heaps = [dict(HM.heap_of(self.world.explorer))]
@@ -940,7 +986,7 @@ class Verifier:
                 for i, e in enumerate(c.ensures):
                     nm = f'{c.name}/post#{i}:{e.__name__}'
                     rep.reach[nm] = rep.reach.get(nm, 0) + 1
-                    self.oblige_spec(nm, 'post', e, old + [outcome[1]])
+                    self.oblige_spec(nm, 'post', e, (list(self.current_args) if getattr(c, 'record', False) else old) + [outcome[1]])
             else:
                 exc = outcome[1]
                 cond = None
@@ -954,7 +1000,7 @@ class Verifier:
                     self.oblige(nm, 'raises', False,
                                 detail=f'{exc.typ} raised at line {exc.line} is not allowed by the contract')
                 elif cond is not None:
-                    self.oblige_spec(f'{nm}:{exc.typ}', 'raises', cond, old)
+                    self.oblige_spec(f'{nm}:{exc.typ}', 'raises', cond, list(self.current_args) if getattr(c, 'record', False) else old)
                 else:
                     self.oblige(f'{nm}:{exc.typ}', 'raises', True)
             return outcome[0], list(self.records)
@@ -1154,5 +1200,16 @@ def loop_hook(interp, node, env, it, force=False):
     inv = getattr(vr.active, 'invariants', None)
     if not inv:
         return False
-    from .loops import run_invariant_loop
+    from .loops import loop_ordinal, run_invariant_loop
+    e = env
+    while e is not None and getattr(e, 'func', None) is None:
+        e = e.parent
+    if e is not None:
+        k = loop_ordinal(e.func.node, node)
+        spec = inv.get(k)
+        if isinstance(spec, dict):
+            if vr.in_spec or e.func.node is not getattr(vr, 'active_node', None):
+                return False
+            from .records import run_scalar_invariant_loop
+            return run_scalar_invariant_loop(interp, vr, node, env, spec, k)
     return run_invariant_loop(interp, vr, node, env, it, inv, force)
